@@ -74,6 +74,7 @@ type GenesisOpts struct {
 	DiskDB      bool              `json:"diskdb"` // goleveldb under the run's scratch home instead of MemDB
 	NoFastNode  bool              `json:"nofast"` // the operator's --iavl-disable-fastnode
 	StopAfterBlock1 bool          `json:"-"`         // node-level runs: return right after the commit of block 1 (no block 2 begun, no restart done)
+	AbsGen      M                 `json:"absgen"`    // an abstract genesis value of spec/GenesisMC.tla for the three custom modules
 	Gov         bool              `json:"gov"`       // short governance voting period, 1umed deposit, and a funded (untracked) proposer account
 	LegacyDid   bool              `json:"legacydid"` // genesis holds a registry entry under key dc whose document describes d1 (pre-binding chains)
 }
@@ -105,6 +106,9 @@ func blockTime(h int64) time.Time { return t0.Add(time.Duration(h * stepNanos)) 
 
 // absTime maps a real nanosecond timestamp back to the abstract time index, or -1.
 func absTime(nanos int64) int {
+	if nanos == 0 {
+		return -2 // "no timestamp at all" (only a genesis file can say that)
+	}
 	d := nanos - t0.UnixNano()
 	if d < 0 || d%stepNanos != 0 {
 		return -1
@@ -305,6 +309,11 @@ func (c *Chain) buildGenesis() (json.RawMessage, error) {
 		dg := didtypes.GenesisState{Documents: map[string]*didtypes.DIDDocumentWithSeq{
 			didtypes.GenesisDIDDocumentKey{DID: didDict["dc"]}.Marshal(): {Document: doc, Sequence: 0}}}
 		gs[didtypes.ModuleName] = cdc.MustMarshalJSON(&dg)
+	}
+	if c.Opts.AbsGen != nil {
+		if err := c.concGenesis(c.Opts.AbsGen, gs); err != nil {
+			return nil, err
+		}
 	}
 	for mod, js := range c.Opts.CustomGen {
 		gs[mod] = json.RawMessage(js)
